@@ -97,7 +97,6 @@ pub struct LayoutBounds {
 pub struct Bounds {
     pub num_glyphs: u32,
     pub name_ids: BTreeSet<u16>,
-    pub has_name: bool,
     pub axis_count: Option<u32>,
     pub gsub: Option<LayoutBounds>,
     pub gpos: Option<LayoutBounds>,
@@ -112,7 +111,6 @@ impl Bounds {
     pub fn of(font: &Font) -> Bounds {
         let mut b = Bounds { num_glyphs: font.num_glyphs.unwrap_or(0) as u32, ..Default::default() };
         if let Some(name) = &font.name {
-            b.has_name = true;
             b.name_ids = name.name_record().iter().map(|r| r.name_id().to_u16()).collect();
         }
         b.axis_count = font.fvar.as_ref().map(|f| f.axis_count() as u32);
